@@ -100,6 +100,7 @@ def task_source(kind):
             'from taskchain.data import DirData, ContinuesData, ListOfNumpyData, GeneratedDataLazy\n'
             'class Victim(Task):\n    class Meta:\n        task_group = "c05"\n' + extra +
             f'    def run(self) -> {ret}:\n        _S["runs"] += 1\n        if _S["fault"] == "raise":\n            raise RuntimeError("boom")\n'
+            f'        if _S["fault"] == "interrupt":\n            raise KeyboardInterrupt()\n'
             f'        if _S["fault"] == "mistyped":\n            return 12345\n'
             f'        if _S["fault"] == "mistyped_iterable":\n            return {{"a": 1, "b": 2}}\n'
             f'        if _S["fault"] == "unserializable":\n            return _S["bad"]\n        {body}\n')
@@ -136,7 +137,7 @@ class Faults(Suite):
             for forced in (False, True):
                 for leftover in (('none', 'tmp', 'old', 'both') if kind in DIRKINDS else ('none', 'tmp')):
                     out.append(dict(kind=kind, forced=forced, fault='crash', leftover=leftover))
-            for fault in ('raise', 'mistyped', 'unserializable', 'mistyped_iterable', 'raise_midway'):
+            for fault in ('raise', 'interrupt', 'mistyped', 'unserializable', 'mistyped_iterable', 'raise_midway'):
                 if fault == 'unserializable' and kind not in ('json', 'generated'):
                     continue
                 if fault == 'mistyped' and kind in ('generated', 'generated_lazy'):
@@ -214,7 +215,7 @@ class Faults(Suite):
                 try:
                     v = t.value
                     res = dict(value=describe_result(kind, v))
-                except Exception as e:
+                except BaseException as e:      # also an interrupt (Ctrl-C in a notebook) inside run
                     res = dict(error=type(e).__name__)
                 busy[0] = True
                 shutil.copytree(root, f'snap/final', symlinks=True) if os.path.exists(root) else os.makedirs('snap/final')
